@@ -14,10 +14,12 @@ MonParams == %(monparams)s
 
 VARIABLES K, phys, mon, hist
 vars == <<K, phys, mon, hist>>
+MonOk == %(monok)s
 
 Init == K = InitK /\ phys = {} /\ mon = %(moninit)s /\ hist = <<>>
 
-CanInput == K.L.panic = "" /\ Len(K.L.queue) < QMax %(extra_guard)s
+Alive == K.L.panic = "" /\ MonOk
+CanInput == Alive /\ Len(K.L.queue) < QMax %(extra_guard)s
 Press(c) == /\ CanInput /\ c \notin phys
             /\ K' = HandleInput(K, "d", c) /\ phys' = phys \cup {c}
             /\ mon' = %(moninput_d)s
@@ -27,7 +29,7 @@ Release(c) == /\ CanInput /\ c \in phys
               /\ mon' = %(moninput_u)s
               /\ hist' = Append(hist, <<"u", c>>)
 %(extra_actions)s
-Tick == /\ K.L.panic = ""
+Tick == /\ Alive
         /\ LET s == StepTick(K) IN
            /\ K' = s.K
            /\ mon' = %(montick)s
@@ -42,12 +44,16 @@ Expect == IF LastIsTick
           ELSE [out |-> K'.out, proj |-> Proj(K')]
 Edge == PrintT(<<"EDGE", ToJson([h |-> hist', x |-> Expect])>>)
 
-NoPanic == K.L.panic = ""
-MonOk == %(monok)s
+\* soft invariants: print a witness (the shortest input history reaching the state) and go on;
+\* a state with a monitor error or a panic has no successors.  The witnesses are then
+\* replayed on the real code and judged there (DESIGN 3.3).
+PanicProbe == K.L.panic = "" \/ PrintT(<<"PANIC", ToJson([h |-> hist, site |-> K.L.panic])>>)
+MonProbe == MonOk \/ PrintT(<<"MONERR", ToJson([h |-> hist, err |-> mon.err])>>)
 \* C07 part 1: a tick taken where the loop would block is a stutter on everything that can
 \* influence the future, and emits nothing
 TickIsStutter == CanBlockUpdate(K).cb =>
                    LET s == StepTick(K) IN s.K.out = <<>> /\ [s.K EXCEPT !.out = <<>>] = [K EXCEPT !.out = <<>>]
+StutterProbe == TickIsStutter \/ PrintT(<<"NOSTUTTER", ToJson([h |-> hist])>>)
 %(extra_defs)s
 ====
 '''
@@ -82,9 +88,7 @@ def gen_instance(inst, wd):
         moninput_d = moninput_u = montick = "mon"
         monok = "TRUE"
         monparams = "0"
-    invs = ["NoPanic", "MonOk"] + inst.get("invariants", ["TickIsStutter"])
-    if inst.get("allow_panic"):
-        invs.remove("NoPanic")
+    invs = ["PanicProbe", "MonProbe"] + inst.get("invariants", ["StutterProbe"])
     text = MC_TEMPLATE % dict(
         mod=mod, extends=extends, consts=consts, keys="{" + ", ".join(str(k) for k in inst["keys"]) + "}",
         qmax=inst.get("qmax", 3), monparams=monparams, moninit=moninit, moninput_d=moninput_d,
@@ -116,6 +120,10 @@ def check_instance(inst, wd, workers=8, timeout=900, replay=True):
         raise ToolError("TLC timed out on %s" % mod)
     if r["error"] and not r["violated"]:
         raise ToolError("TLC error on %s: %s (see %s)" % (mod, r["error"], r["out"]))
+    for tag in ("PANIC", "MONERR", "NOSTUTTER"):
+        f = os.path.join(wd, mod + "." + tag.lower() + ".ndjson")
+        res["n_" + tag.lower()] = extract_prints(r["out"], tag, f)
+        res[tag.lower() + "_file"] = f
     if inst.get("edges", True):
         edges = os.path.join(wd, mod + ".edges.ndjson")
         n = extract_prints(r["out"], "EDGE", edges)
